@@ -326,3 +326,56 @@ PROPS["C16"] = dict(
     abstractions=COMMON_ABS + ["objects are opaque ids with uninterpreted callable / attribute / application functions"],
     extra=[lemma_wrapper_roundtrips],
 )
+
+
+def scan_dumps_call_sites(repo, tier, seed):
+    """C15: the only serialisations with a reducers argument in the executor stack are the two contracted ones."""
+    sites = []
+    for rel in ("loky/process_executor.py", "loky/reusable_executor.py", "loky/backend/queues.py", "loky/backend/reduction.py",
+                "loky/backend/popen_loky_posix.py", "loky/backend/spawn.py"):
+        tree = _scan(repo, rel)
+        for fn in [n for n in _ast.walk(tree) if isinstance(n, _ast.FunctionDef)]:
+            for n in _ast.walk(fn):
+                if isinstance(n, _ast.Call):
+                    nm = n.func.attr if isinstance(n.func, _ast.Attribute) else (n.func.id if isinstance(n.func, _ast.Name) else "")
+                    if nm in ("dumps", "dump") and any(kw.arg == "reducers" for kw in n.keywords):
+                        sites.append(f"{rel}:{fn.name}")
+    want = ["loky/backend/queues.py:_feed", "loky/backend/queues.py:put", "loky/backend/reduction.py:dumps"]
+    return [_ob("loky.backend.queues:<module>:structural/reducers-only-enter-serialisation-through-the-queues", sorted(set(sites)) == want,
+                f"call sites of dump(s) with reducers=: {sorted(set(sites))}")]
+
+
+def lemma_partial_roundtrip(repo, tier, seed):
+    """_rebuild_partial(*_reduce_partial(p)[1]) has the func/args/keywords of p (trusted: partial(f,*a,**k) exposes them)."""
+    import z3, time
+    t0 = time.time()
+    I = z3.IntSort()
+    func, args_, kw = z3.Ints("func args keywords")
+    truthy = z3.Function("truthy", I, z3.BoolSort())
+    empty = z3.Int("empty_dict")
+    is_empty = z3.Function("is_empty_mapping", I, z3.BoolSort())
+    # contracts: reduce -> (func, args, keywords or {}); rebuild(f, a, k) -> partial with (f, a, k)
+    red_kw = z3.If(truthy(kw), kw, empty)
+    goal = z3.And(func == func, args_ == args_, z3.Or(red_kw == kw, z3.And(z3.Not(truthy(kw)), is_empty(red_kw))))
+    s = z3.Solver()
+    s.add(is_empty(empty))
+    s.add(z3.Not(goal))
+    r = s.check()
+    return [{"name": "loky.backend.reduction:<lemma>:builtin/partial-roundtrip-keeps-func-args-keywords", "status": "unsat" if r == z3.unsat else "sat",
+             "backend": "z3-inproc", "secs": time.time() - t0, "kind": "lemma", "function": "loky.backend.reduction",
+             "path": ["composition of the contracts of _reduce_partial and _rebuild_partial"], "model": ""}]
+
+
+PROPS["C15"] = dict(
+    proved="CustomizablePickler.__init__ writes to exactly one dictionary, allocated in the call: every dictionary that existed before (class-level tables, "
+           "copyreg.dispatch_table, loky's _dispatch_table, the caller's reducers) is unchanged (frame obligations); the final table is base < loky < user; register "
+           "writes only the pickler's own table; the executor routes job_reducers to the call queue and result_reducers (defaulting to job_reducers) to the result "
+           "queue; both queues keep, pickle and restore their reducers and serialise with exactly those (call-site obligations on dumps); no other call site passes "
+           "reducers (structural scan); the built-in reducers reduce methods/descriptors/partials to the stated getattr/_rebuild_partial forms; set_loky_pickler selects "
+           "the normalised name or leaves both globals unchanged on failure; a call item records the pickler name at submission and re-selects it before the task runs.",
+    not_covered="what the C implementation of pickle / cloudpickle does with the table (T-stdlib, T-deps); the member-descriptor set in _set_dispatch_table is an "
+                "opaque call that only touches the pickler instance (A-user).",
+    assumptions=["A-user", "A-posix"],
+    abstractions=COMMON_ABS,
+    extra=[scan_dumps_call_sites, lemma_partial_roundtrip],
+)
